@@ -58,6 +58,8 @@ def gen_cases(rng, tier):
       parts.append([m, s, [float(j + 1), float(10 * (j + 1)), float(100 * (j + 1))]])
     dup = (i % 11 == 5)
     cases.append({"parts": parts, "order_seed": rng.randrange(1 << 30), "ambiguous_dup": dup})
+  if tier in ["quick","thorough"]:
+    cases.append({"kind": "suite"})   # the repository's own tests with this check's contracts armed
   return cases
 
 
@@ -148,6 +150,10 @@ def judge(ctx, parts, f, r, route, order_desc, zero_below=None):
 
 
 def run_case(case, ctx):
+  if case.get("kind") == "suite":
+    import suite_contracts
+    ctx.cls("kind:suite_with_contracts")
+    return suite_contracts.run_suite(ctx, 'c08', ['range_search'])
   from atsim.potentials import potentialforms as pf
   from atsim.potentials import create_Multi_Range_Potential_Form, Multi_Range_Defn
   parts = case["parts"]
